@@ -23,7 +23,6 @@ ASSUMPTIONS = [
     "below 1e60 so that no intermediate overflows.",
 ]
 
-KEY_EMPTY = "C19:empty-qef-default-target"
 EPS = 2.0 ** -53
 
 
@@ -384,20 +383,40 @@ def run(rep, tier, seed, replay=None):
     stats = {"constrained_results": 0, "by_dim": {}, "max_err_ratio": 0.0, "max_err_ratio_per_m": 0.0,
              "tiny_negative_errors": 0, "full_kept": 0, "full_in_box_but_in_shrink_margin": 0,
              "perm_compared": 0, "split_compared": 0, "nan_default_target": 0, "equal_error_comparisons": 0,
-             "cases_with_equal_errors": 0, "tiebreak_replacements": 0, "reduced_judged": 0,
+             "cases_with_equal_errors": 0, "tiebreak_replacements": 0, "reduced_judged": 0, "assemble_candidates_judged": 0, "assemble_candidates_total": 0,
+             "assemble_worst_rel_diff": 0.0, "out_of_scope_cases": 0, "out_of_scope_no_comparable_corner": 0,
+             "out_of_scope_result_outside_box": 0,
              "reduced_skipped_singular": 0, "reduced_skipped_far_optimum": 0, "reduced_max_excess_over_M": 0.0}
     meta = {c["id"]: c for c in gens}
     failed = set()
+    oos_ids = set()
     for cid, c in cases.items():
         if c.get("unsupported") or "result" not in c:
             continue
         g = meta.get(cid)
+        # the in-box theorem itself, observed on the real code for EVERY case (also out-of-scope
+        # inputs): a comparable corner error and a well-formed shrunk region => result contained
+        N = c["N"]
+        wf = all(c["slo"][i] <= c["shi"][i] for i in range(N))
+        corner_ok = any(s["error"] < math.inf for nb, s in c["cand"].items()
+                        if all(digit(nb, a) != 2 for a in range(N)))
+        res_in = all(c["slo"][i] <= c["result"]["pos"][i] <= c["shi"][i] for i in range(N))
+        if wf and corner_ok and not res_in:
+            failed.add(cid)
+            rep.violation("QEF<%d>::solveBounded left the box although a corner candidate had a comparable error" % N,
+                          {"kind": "oracle", "case": cid, "input": in_lines.get(cid), "result": c["result"]})
+            continue
+        if g is not None and g.get("oos"):
+            stats["out_of_scope_cases"] += 1
+            stats["out_of_scope_no_comparable_corner"] += not corner_ok
+            stats["out_of_scope_result_outside_box"] += not res_in
+            oos_ids.add(cid)   # not judged further (no reduced tie either)
+            continue
         fails = oracle(c, g, stats)
         if not fails:
             continue
         failed.add(cid)
-        empty_default = len(c["samples"]) == 0 and c.get("target_default")
-        key = KEY_EMPTY if empty_default else None
+        key = None   # no recorded findings: the empty-QEF defect is fixed (e5a8679)
         rep.violation("QEF<%d>::solveBounded: %s (%s)" % (c["N"], fails[0][0], fails[0][1][:300]),
                       {"kind": "oracle", "case": cid, "class": g and g["cls"], "input": in_lines.get(cid),
                        "failures": fails[:6], "result": c["result"],
@@ -408,7 +427,7 @@ def run(rep, tier, seed, replay=None):
     rrng = random.Random(seed * 31 + 7)
     every = 1 if tier == "quick" else 8
     for k, (cid, c) in enumerate(cases.items()):
-        if c.get("unsupported") or "result" not in c or cid in failed or (k % every and not cid.startswith("fixed")):
+        if c.get("unsupported") or "result" not in c or cid in failed or cid in oos_ids or (k % every and not cid.startswith("fixed")):
             continue
         bad = reduced_tie(c, stats, rrng)
         if bad:
@@ -449,6 +468,17 @@ def run(rep, tier, seed, replay=None):
         w = v.split()
         if w[0] == "ok":
             oks[w[1]] = oks.get(w[1], 0) + 1
+            if w[1] == "assemble":
+                for x in w:
+                    if x.startswith("judged="):
+                        stats["assemble_candidates_judged"] += int(x[7:])
+                    elif x.startswith("of="):
+                        stats["assemble_candidates_total"] += int(x[3:])
+                    elif x.startswith("worst_e12="):
+                        try:
+                            stats["assemble_worst_rel_diff"] = max(stats["assemble_worst_rel_diff"], float(x[10:]) * 1e-12)
+                        except ValueError:
+                            pass
             if w[1] == "select":
                 for x in w:
                     if x.startswith("ties="):
@@ -463,7 +493,8 @@ def run(rep, tier, seed, replay=None):
         "select": ["Libfive.C19.solveBounded_in_box", "Libfive.C19.unconstrained_kept", "Libfive.C19.result_is_candidate"],
         "cand": ["Libfive.C19.constrained_on_face", "Libfive.C19.reported_error_is_qef"],
         "insert": ["Libfive.C19.error_sum_of_squares"], "accum": ["Libfive.C19.accumulate_comm_assoc"],
-        "sub": ["Libfive.C19.sub_error"], "shrink": ["Libfive.C19.shrink_inside"],
+        "sub": ["Libfive.C19.sub_accumulate"], "shrink": ["Libfive.C19.shrink_inside"],
+        "assemble": ["Libfive.C19.candidate_minimises_on_face", "Libfive.C19.reduced_system", "Libfive.C19.constrained_on_face"],
     }
     reported = set(failed)
     for mline in mism[:20]:
